@@ -152,7 +152,7 @@ def one(rec, hub, seed, tier, i, tmpdir):
             d.stocks[0]["name"], d.stocks[1]["name"] = long_ + " (in use, region group 1)", long_ + " (in use, region group 2)"
     names = [SY.flow_name(d, f) for f in d.flows]
     san = [ref_file_name(n) for n in names]
-    if len(set(names)) != len(names) or len(set(san)) != len(san) or any(not x for x in san):
+    if len(set(names)) != len(names) or len(set(san)) != len(san):
         rec.skip(M, "flow names not distinct after sanitising")
         return
     sn = [ref_file_name(s["name"]) for s in d.stocks]
@@ -452,10 +452,61 @@ def _judge_definition_tables(rec, out, kinds, suffix):
                 cell = row[fk]
                 same = cell == fv if not isinstance(fv, (tuple, list)) else tuple(cell) == tuple(fv)
                 if fv is None:
-                    same = cell is None or cell != cell
+                    same = cell is None  # the field value is None: a NaN in its place is another value (and another type)
                 if not same:
                     rec.violation(MDEF, "to_dfs-cell-differs-from-field" + suffix, {"kind": k, "field": fk, "got": repr(cell)[:60], "expected": repr(fv)[:60]})
                     break
+
+
+def special_values_and_labels(rec, hub, seed, g):
+    """The pandas form of the export for (a) a dimension whose items are of MIXED types (years and a text label: 2020, 2030, "later") and
+    (b) whole-number quantities beyond 2**53 stored as 64-bit integers: every value stands under the items themselves (same values, same
+    types) and the value column holds exactly the numbers of the array.  (CSV text cannot carry item types, so mixed-type items are
+    looked at in the pandas form only.)"""
+    fd = hub.fd
+    from flodym.export import convert_to_dict
+
+    rng = case_nprng(seed, "c19.special", 0, g)
+    mixed = fd.Dimension(name="Period", letter="p", items=[[2020, 2030, "later"], [1, 2.5, "n/a"], ["base", 2050]][g % 3])
+    good = fd.Dimension(name="Good", letter="g", items=["car", "bike", "bus"][: 2 + g % 2])
+    dims = fd.DimensionSet(dim_list=[mixed, good] if g % 2 else [good, mixed])
+    procs = fd.make_processes(["sysenv", "use"])
+    big = (2**53 + 1 + rng.integers(0, 2**40, size=dims.shape).astype(np.int64) * 2).astype(np.int64)  # odd numbers beyond 2**53
+    small = rng.integers(1, 1000, size=dims.shape).astype(float) / 8.0
+    flows = {"sysenv => use": fd.Flow(dims=dims, values=small.copy(), name="sysenv => use", from_process=procs["sysenv"], to_process=procs["use"]),
+             "use => sysenv": fd.Flow(dims=dims, values=big.copy(), name="use => sysenv", from_process=procs["use"], to_process=procs["sysenv"])}
+    mfa = fd.MFASystem(dims=dims, parameters={}, processes=procs, flows=flows, stocks={})
+    rec.event(M, sig=f"special|{g % 3}|{g % 2}", cls="convert_to_dict|pandas|mixed-type items and 64-bit whole numbers beyond 2**53")
+    try:
+        out = convert_to_dict(mfa, type="pandas")
+    except Exception as e:
+        rec.violation(M, "dict:raised:mixed-type-items-or-large-integers", {"exc": repr(e)[:300]})
+        return
+    for name, truth in (("sysenv => use", small), ("use => sysenv", big)):
+        df = out["flows"][name]
+        flat = df.reset_index()
+        for dim in dims:
+            col = list(flat[dim.name]) if dim.name in flat.columns else None
+            if col is None:
+                rec.violation(M, "dict:flow-frame-lacks-a-dimension-column", {"flow": name, "dimension": dim.name})
+                continue
+            seen = list(dict.fromkeys(col))
+            if len(seen) != len(dim.items) or any((a_ != b_) or (isinstance(a_, str) != isinstance(b_, str)) for a_, b_ in zip(sorted(seen, key=str), sorted(dim.items, key=str))):
+                rec.violation(M, "dict:flow-frame-labels-are-not-the-items", {"flow": name, "dimension": dim.name, "labels": repr(seen)[:120], "items": repr(list(dim.items))[:120]})
+        # every value under its labels, exactly
+        pos = {dim.name: {(type(it).__name__ == "str", it): k for k, it in enumerate(dim.items)} for dim in dims}
+        wrong = 0
+        for _, row in flat.iterrows():
+            try:
+                idx = tuple(pos[dim.name][(isinstance(row[dim.name], str), row[dim.name])] for dim in dims)
+            except KeyError:
+                wrong += 1
+                continue
+            v = row["value"]
+            if int(v) != int(truth[idx]) if truth.dtype.kind == "i" else float(v) != float(truth[idx]):
+                wrong += 1
+        if wrong:
+            rec.violation(M, "dict:flow-frame-values-differ" + (":whole-numbers-beyond-2**53" if truth.dtype.kind == "i" else ""), {"flow": name, "n_wrong": wrong, "value_dtype": str(flat["value"].dtype)})
 
 
 def run(rec, hub, tier, seed, shard, nshards, budget):
@@ -465,6 +516,9 @@ def run(rec, hub, tier, seed, shard, nshards, budget):
     n = 200 if tier == "quick" else 2000
     tmpdir = tempfile.mkdtemp(prefix="vmon-c19-")
     try:
+        for g in range(6):
+            rec.set_case(driver="c19.special", seed=seed, tier=tier, shard=shard, nshards=nshards, idx=g * nshards + shard)
+            special_values_and_labels(rec, hub, seed, g * nshards + shard)
         for kk in range(n):
             if not budget.ok():
                 break
@@ -479,6 +533,9 @@ def replay(rec, hub, case):
     tmpdir = tempfile.mkdtemp(prefix="vmon-c19-")
     try:
         rec.set_case(**case)
+        if case["driver"] == "c19.special":
+            special_values_and_labels(rec, hub, case["seed"], case["idx"])
+            return
         one(rec, hub, case["seed"], case.get("tier", "quick"), case["idx"], tmpdir)
     finally:
         shutil.rmtree(tmpdir, ignore_errors=True)
